@@ -452,12 +452,19 @@ type Replay struct {
 	Note       string `json:"note,omitempty"`
 }
 
+var replayBudget = 8
+
 func buildReplay(e *Engine, o *Obligation, prop, tier string) *Replay {
 	r := o.Result
 	rp := &Replay{Property: prop, Obligation: o.ID, Kind: o.Kind, Function: o.Func, Position: o.Pos, Clause: o.Clause, Tier: tier,
 		Solver: r.Solver, Verdict: r.Verdict, SMTFile: r.File, Output: r.Output, Model: trunc(r.Model, 20000)}
 	if r.Verdict == "sat" {
-		tryReplay(e, o, rp)
+		if replayBudget > 0 {
+			replayBudget--
+			tryReplay(e, o, rp)
+		} else {
+			rp.Note = "counterexample model attached; replay budget of this run used up (the first 8 refuted obligations are replayed)"
+		}
 	} else {
 		rp.Note = "no model: the obligation is not discharged (" + r.Verdict + "); it is discharged on the unchanged tree"
 	}
